@@ -618,6 +618,10 @@ func (g *caseGen) insertPayload() []byte {
 		return []byte(g.pick("{}", "5", "[1]", "nope", "", `"s"`, "null", "{", `{"a"`, `{"":1}`, `{"a.b":1}`, `{"a.-1":1}`, `{"*":1}`, `{"#":1}`, `{"@this":1}`))
 	case x < 10:
 		return compact(map[string]any{"new" + fmt.Sprint(g.rng.Intn(3)): g.jsonVal("snboa"[g.rng.Intn(5)], 1)})
+	case x < 11:
+		// several values, a later one possibly refused (type clash): nothing may be applied then
+		f := fieldNames[g.rng.Intn(len(fieldNames))]
+		return []byte(`{"n8":1,"` + f + `":` + string(compact(g.jsonVal("snb"[g.rng.Intn(3)], 1))) + `,"s8":"v"}`)
 	default:
 		return compact(map[string]any{"n9": 1, "s9": "v"}) // several fresh keys, all acceptable
 	}
